@@ -7,10 +7,15 @@ L_BIN = "chan_l"
 
 
 def _run_shard(args):
-    mode, seed, count, outdir = args
+    mode, seed, count, outdir = args[:4]
+    binp = args[4] if len(args) > 4 else harness_bin(L_BIN)
     os.makedirs(outdir, exist_ok=True)
-    rc, out, err = sh([harness_bin(L_BIN), mode, str(seed), str(count), outdir], timeout=3600)
+    rc, out, err = sh([binp, mode, str(seed), str(count), outdir], timeout=3600)
     if rc != 0:
+        hp = os.path.join(outdir, "hang.txt")
+        if rc == 3 and os.path.exists(hp):
+            # the harness's watchdog: the implementation did not answer the last request of this history
+            return {"dir": outdir, "error": "the implementation does not answer (non-termination) on a history", "hang": open(hp).read().splitlines()}
         return {"dir": outdir, "error": f"harness rc={rc}: {err[-500:]}"}
     with open(os.path.join(outdir, "req.txt")) as fin, open(os.path.join(outdir, "model.txt"), "w") as fout:
         p = subprocess.run([DRV], stdin=fin, stdout=fout, stderr=subprocess.PIPE, text=True)
@@ -255,6 +260,12 @@ def run(seed, tier, extra_seeds=0):
     ex = "exhaustive-quick" if tier == "quick" else "exhaustive-thorough"
     for i in range(nsh):
         jobs.append((f"{ex}:{i}/{nsh}", 0, 0, os.path.join(base, f"exh{i}")))
+    # the same library built the way users build it for release (no debug assertions, no overflow checks): four more shards
+    rc_opt, _, _ = sh(["cargo", "build", "--offline", "--profile", "opt", "--bin", L_BIN], cwd=HARNESS, timeout=3600)
+    opt_bin = os.path.join(TARGET, "opt", L_BIN)
+    if rc_opt == 0 and os.path.exists(opt_bin):
+        for i in range(4):
+            jobs.append(("random", seed * 1000 + 900 + i + 7919 * extra_seeds, per // 2, os.path.join(base, f"opt{i}"), opt_bin))
     with ThreadPoolExecutor(max_workers=16) as pool:
         results = list(pool.map(_run_shard, jobs))
     errors = [r for r in results if "error" in r]
